@@ -8,7 +8,7 @@
 -/
 import Jawk.Lemmas.RunSpec
 import Jawk.Lemmas.RoundTrip
-import Jawk.Props.C06
+import Jawk.Props.C06Steps
 namespace Jawk.Noise
 open Jawk Jawk.Pipe Jawk.Fuel Jawk.RunSpec Jawk.RT Jawk.C06 Reader
 
